@@ -14,7 +14,8 @@ if [ ! -d $WT ]; then
   cp -r /repo/target $WT/target
 fi
 cd $WT || exit 2
-git checkout -q --detach "$(git -C /repo rev-parse HEAD)" && git checkout -q -- . && git clean -fdq -e target
+git checkout -q --detach "$(git -C /repo rev-parse HEAD)" && git checkout -q -- . && git clean -fdq -e target -e Cargo.lock
+mkdir -p rscel/tests; [ -f Cargo.lock ] || cp /repo/Cargo.lock Cargo.lock
 cp "$D/demo.rs" rscel/tests/$N.rs
 echo "== demo on unchanged tree"
 if ! cargo test -p rscel --offline --test $N >$D/.confirm_base.log 2>&1; then echo "NOT-CONFIRMED: demo fails on the unchanged tree"; tail -20 $D/.confirm_base.log; exit 1; fi
@@ -28,5 +29,5 @@ rm rscel/tests/$N.rs
 echo "== full suite with the change"
 if ! cargo test --workspace --no-fail-fast --offline >$D/.confirm_suite.log 2>&1; then echo "NOT-CONFIRMED: suite fails with the change"; grep -E "FAILED|failed|panicked" $D/.confirm_suite.log | head; exit 1; fi
 grep -E "^test result" $D/.confirm_suite.log | awk '{p+=$4; f+=$6} END {print "suite: passed="p" failed="f}'
-git checkout -q -- . && git clean -fdq -e target
+git checkout -q -- . && git clean -fdq -e target -e Cargo.lock
 echo CONFIRMED
